@@ -607,7 +607,7 @@ func Gen(t *rapid.T, o Options) *Layout {
 	for _, n := range valNames {
 		m.roots = append(m.roots, rootField("v"+strings.ToLower(n[1:]), n, n, "", nil))
 	}
-	m.roots = append(m.roots, rootField("echoRoot", "String", "String", "(f: Filter, l: [Int!], s: String, id: ID, e: Color, j: JSON, p: Pos, ll: [[Int]], fl: Float, b: Boolean, fs: [Filter])", []string{"f", "l", "s", "id", "e", "j", "p", "ll", "fl", "b", "fs"}))
+	m.roots = append(m.roots, rootField("echoRoot", "String", "String", "(f: Filter, ln: [Int], l: [Int!], s: String, id: ID, e: Color, j: JSON, p: Pos, ll: [[Int]], fl: Float, b: Boolean, fs: [Filter])", []string{"f", "ln", "l", "s", "id", "e", "j", "p", "ll", "fl", "b", "fs"}))
 	m.roots = append(m.roots, rootField("scalarRoot", "Int!", "Int", "", nil))
 	if rapid.IntRange(0, 3).Draw(t, "rooterr") == 0 {
 		m.roots = append(m.roots, rootField("err_root", "String", "String", "", nil))
